@@ -66,7 +66,8 @@ theorem file_frame (f g : Bytes) (h : Elf.AgreeOn f g (Elf.readRanges f)) (k : S
 /-- **file_frame_named.** The byte-level frame property for a load by name.  `Elf.namedRanges f k`
 lists, as a function of the file and the name: the ELF header, the fields read of the program and
 section headers, the section-name table, the symbol table and its string table, and — when the
-symbols are readable and `k ≠ ""` — of `.text` only **the selected symbol's range**
+symbols are readable (for the empty name: when it selects the single kernel symbol) — of `.text`
+only **the selected symbol's range**
 `[sh_offset + (st_value − sh_addr), + st_size)` and of `.rodata` only **the 64 bytes of the
 descriptor** `<k>.kd`.  Two files of the same length that agree there load `k` identically: the
 code of every other kernel, every other descriptor, all other sections are irrelevant. -/
@@ -113,9 +114,29 @@ theorem file_frame_named (f g : Bytes) (k : String) (h : Elf.AgreeOn f g (Elf.na
     | ok syms =>
       simp only
       by_cases hk : k = ""
-      · have hc : Elf.CodeAgree f g secs :=
-          Elf.codeAgree_of h (fun r hr => Elf.mem_named_tail hs (by rw [hS]; simp only [if_pos hk]; exact hr))
-        rw [Elf.loadKernel_congr hc]
+      · subst hk
+        apply congrArg some
+        apply Elf.loadKernel_fine_empty h.1 syms
+        · intro hfl
+          exact Elf.codeAgree_of h (fun r hr => Elf.mem_named_tail hs (by
+            rw [hS]; simp only [if_true, hfl]; exact hr))
+        · intro k0 hfl
+          have hm : ∀ r, r ∈ Elf.selRanges f secs syms k0.name → r ∈ Elf.namedRanges f "" :=
+            fun r hr => Elf.mem_named_tail hs (by rw [hS]; simp only [if_true, hfl]; exact hr)
+          constructor
+          · intro t s ht hsel
+            apply h.on
+            apply hm
+            unfold Elf.selRanges
+            rw [ht, hsel]
+            exact List.mem_append_left _ (List.mem_singleton.2 rfl)
+          · intro ro s hro hkd ha
+            apply h.on
+            apply hm
+            unfold Elf.selRanges
+            rw [hro, hkd]
+            simp only [if_pos ha]
+            exact List.mem_append_right _ (List.mem_singleton.2 rfl)
       · have hm : ∀ r, r ∈ Elf.selRanges f secs syms k → r ∈ Elf.namedRanges f k :=
           fun r hr => Elf.mem_named_tail hs (by rw [hS]; simp only [if_neg hk]; exact hr)
         rw [Elf.loadKernel_fine h.1 syms k hk]
@@ -160,9 +181,9 @@ theorem frameOther_agrees :
 example : Elf.loadBytes (Elf.poke elfFile 64 0xAA) "k" = some (.ok elfLoaded) := by
   rw [file_frame_named elfFile _ "k" frameOther_agrees.2.1]; exact elfFile_load
 
-/-- while the whole-section load (empty name with no kernel symbol is not this file; here: the
-unnamed variant reads all of `.text`) is sensitive to that byte: it is in `namedRanges elfFile ""` -/
-example : ¬ Elf.AgreeOn elfFile (Elf.poke elfFile 64 0xAA) (Elf.namedRanges elfFile "") := by
-  decide +kernel
+/-- the empty name selects the single kernel symbol of this file, so the same byte is irrelevant
+for it too -/
+example : Elf.loadBytes (Elf.poke elfFile 64 0xAA) "" = Elf.loadBytes elfFile "" :=
+  file_frame_named elfFile _ "" (by decide +kernel)
 
 end C13
